@@ -6,6 +6,7 @@ import RactorModel.Lemmas.AdmissionQueue
 import RactorModel.Lemmas.AdmissionOracle
 import RactorModel.Lemmas.AdmissionShut
 import RactorModel.Lemmas.Early
+import RactorModel.Lemmas.EarlyStep
 
 /-!
 # C07 — drain processes everything accepted and admits nothing afterwards
@@ -299,14 +300,13 @@ theorem drain_before_start_still_drains (ops : List Early.Op) (hu : Early.undist
   have hI := Early.uinv_fold ops ((Early.undisturbed_iff ops).mp hu) {} Early.uinv_init
   have hph := Early.polled_fold ops ok hpoll {}
   change Early.UInv (Early.run ops) at hI
-  change (Early.run ops).phase ≠ .unstarted at hph
-  cases hp : (Early.run ops).phase
-  · exact absurd hp hph
+  change Early.started (Early.run ops) at hph
+  rcases hph with hp | hp
   · have := (hI.ru hp).2.2.2; rw [hd] at this; exact absurd this (by simp)
   · have h3 := hI.st hp
     have h4 := hI.split
     rw [h3.1, List.append_nil] at h4
-    exact ⟨h4, rfl, h3.2.1⟩
+    exact ⟨h4, hp, h3.2.1⟩
 
 /-- … and whatever else happens (stops, kills, failing starts, any order): once a drain has
 returned, no later cast is accepted. -/
@@ -319,6 +319,158 @@ then the start: both messages are handled and the actor ends "Drained". -/
 example :
     let s := Early.run [.cast, .cast, .drain, .cast, .poll true]
     s.handled = [0, 1] ∧ s.accepted = [0, 1] ∧ s.reason = some "T:Drained" ∧ s.startResult = some "ok" := by
+  decide
+
+/-! ### the start of an actor racing with `drain()` at single-step granularity (`Model/EarlyStep.lean`)
+
+Start thread: check `Unstarted` → publish `Starting` → [link]ₜₗ → `pre_start` → [link] → mark running →
+`post_start` → publish `Running` → loop; any number of other threads issuing casts, three-step
+drains, stops and kills; EVERY interleaving (`sched : List Tid`), every configuration `c`
+(linked / thread-local / supervisor accepting or not / `pre_start` ok or err / code before or
+after fix ee38a9c). -/
+
+/-- While the actor lives nothing whose send returned Ok is lost: handled, then the messages still
+queued, are exactly the accepted ones, in order. -/
+theorem start_race_nothing_lost_while_alive (c : EarlyStep.Cfg) (progs : List (List EarlyStep.Req))
+    (sched : List EarlyStep.Tid) (hal : (EarlyStep.run c (EarlyStep.init progs) sched).sh.pc.alive = true) :
+    (EarlyStep.run c (EarlyStep.init progs) sched).sh.handled ++
+      EarlyStep.msgs (EarlyStep.run c (EarlyStep.init progs) sched).sh.queue =
+    (EarlyStep.run c (EarlyStep.init progs) sched).sh.accepted :=
+  (EarlyStep.inv_reach c progs sched).split hal
+
+/-- **Every send that returned Ok is handled before a "Drained" exit** — wherever the drains, casts,
+stops and kills fell relative to the steps of the start. -/
+theorem start_race_drained_exit_handled_everything (c : EarlyStep.Cfg) (progs : List (List EarlyStep.Req))
+    (sched : List EarlyStep.Tid)
+    (hx : (EarlyStep.run c (EarlyStep.init progs) sched).sh.pc = .exited .drained) :
+    (EarlyStep.run c (EarlyStep.init progs) sched).sh.handled =
+    (EarlyStep.run c (EarlyStep.init progs) sched).sh.accepted :=
+  (EarlyStep.inv_reach c progs sched).drained hx
+
+/-- `drain()` never makes `start` refuse the actor as already started (finding F8, all schedules):
+the status is still `Unstarted` whenever the start thread reads or overwrites it. -/
+theorem start_race_never_already_started (c : EarlyStep.Cfg) (progs : List (List EarlyStep.Req))
+    (sched : List EarlyStep.Tid) :
+    (EarlyStep.run c (EarlyStep.init progs) sched).sh.pc ≠ .failed .already :=
+  (EarlyStep.inv_reach c progs sched).noAlready
+
+/-- **A drain never fails a start** (the code after fix ee38a9c, finding F9): if no stop and no kill
+was requested, `pre_start` succeeds and the supervisor accepts, then — whatever drains and casts
+were interleaved with the start — the start has not failed, and if the actor has ended it ended
+with "Drained" having handled every accepted message. -/
+theorem start_race_only_drained_exit (c : EarlyStep.Cfg) (hf : c.fixed = true)
+    (progs : List (List EarlyStep.Req)) (sched : List EarlyStep.Tid)
+    (hu : EarlyStep.undisturbed c (EarlyStep.run c (EarlyStep.init progs) sched).sh = true)
+    (hd : (EarlyStep.run c (EarlyStep.init progs) sched).sh.pc.alive = false) :
+    (EarlyStep.run c (EarlyStep.init progs) sched).sh.pc = .exited .drained ∧
+    (EarlyStep.run c (EarlyStep.init progs) sched).sh.handled =
+      (EarlyStep.run c (EarlyStep.init progs) sched).sh.accepted := by
+  have hI := EarlyStep.inv_reach c progs sched
+  have hx := EarlyStep.undisturbed_terminal c _ hI hf hu hd
+  exact ⟨hx, hI.drained hx⟩
+
+/-- **A drain never leaves the actor running forever, wherever it fell in the start**: from every
+reachable state in which the marker has been emitted and nothing intervened, the actor's own task
+— no other thread has to move — ends within `measure` steps, with a "Drained" exit, having handled
+everything that was accepted. -/
+theorem start_race_drain_completes (c : EarlyStep.Cfg) (hf : c.fixed = true)
+    (progs : List (List EarlyStep.Req)) (sched : List EarlyStep.Tid)
+    (hm : (EarlyStep.run c (EarlyStep.init progs) sched).sh.markerSent = true)
+    (hu : EarlyStep.undisturbed c (EarlyStep.run c (EarlyStep.init progs) sched).sh = true) :
+    let s := (EarlyStep.run c (EarlyStep.init progs) sched).sh
+    let s' := EarlyStep.startN c (EarlyStep.measure s) s
+    s'.pc = .exited .drained ∧ s'.handled = s.accepted := by
+  intro s s'
+  have hI := EarlyStep.inv_reach c progs sched
+  have hI' := EarlyStep.inv_startN c (EarlyStep.measure s) s hI
+  have hend := EarlyStep.startN_ends c (EarlyStep.measure s) s hI hm (Nat.le_refl _)
+  have hfr := EarlyStep.startN_frame c (EarlyStep.measure s) s
+  have hu' : EarlyStep.undisturbed c s' = true := by
+    simp only [EarlyStep.undisturbed] at hu ⊢
+    rw [show s'.stopReq = s.stopReq from hfr.2.1, show s'.killReq = s.killReq from hfr.2.2.1]
+    exact hu
+  have hx := EarlyStep.undisturbed_terminal c s' hI' hf hu' hend
+  exact ⟨hx, (hI'.drained hx).trans hfr.2.2.2⟩
+
+/-- **… under ANY fair continuation.** Once the marker has been emitted, every continuation `sched₂`
+of the schedule that gives the actor's own task at least `measure` steps — with the other threads'
+steps (more casts, drains, stops, kills) interleaved in any way — ends the actor's task; and if
+at that point still nothing has intervened, it ended "Drained" having handled every accepted
+message. (The fairness assumption is only "the actor's task is polled `measure` more times".) -/
+theorem start_race_drain_completes_fair (c : EarlyStep.Cfg) (progs : List (List EarlyStep.Req))
+    (sched₁ sched₂ : List EarlyStep.Tid)
+    (hm : (EarlyStep.run c (EarlyStep.init progs) sched₁).sh.markerSent = true)
+    (hfair : EarlyStep.measure (EarlyStep.run c (EarlyStep.init progs) sched₁).sh ≤ sched₂.count .start) :
+    (EarlyStep.run c (EarlyStep.init progs) (sched₁ ++ sched₂)).sh.pc.alive = false ∧
+    (c.fixed = true → EarlyStep.undisturbed c (EarlyStep.run c (EarlyStep.init progs) (sched₁ ++ sched₂)).sh = true →
+      (EarlyStep.run c (EarlyStep.init progs) (sched₁ ++ sched₂)).sh.pc = .exited .drained ∧
+      (EarlyStep.run c (EarlyStep.init progs) (sched₁ ++ sched₂)).sh.handled =
+        (EarlyStep.run c (EarlyStep.init progs) (sched₁ ++ sched₂)).sh.accepted) := by
+  have hI := EarlyStep.inv_reach c progs sched₁
+  have hend : (EarlyStep.run c (EarlyStep.init progs) (sched₁ ++ sched₂)).sh.pc.alive = false := by
+    rw [EarlyStep.run_append]
+    exact EarlyStep.sealed_run_ends c sched₂ _ hI (hI.sentClosed hm) hm hfair
+  exact ⟨hend, fun hf hu => start_race_only_drained_exit c hf progs (sched₁ ++ sched₂) hu hend⟩
+
+/-- Once a drain's first step has closed admission no send is accepted any more, whatever the
+start thread and the other threads do afterwards. -/
+theorem start_race_nothing_accepted_after_close (c : EarlyStep.Cfg) (progs : List (List EarlyStep.Req))
+    (sched₁ sched₂ : List EarlyStep.Tid)
+    (hc : (EarlyStep.run c (EarlyStep.init progs) sched₁).sh.closed = true) :
+    (EarlyStep.run c (EarlyStep.init progs) (sched₁ ++ sched₂)).sh.accepted =
+    (EarlyStep.run c (EarlyStep.init progs) sched₁).sh.accepted := by
+  rw [EarlyStep.run_append]
+  exact (EarlyStep.closed_run c sched₂ _ hc).2
+
+/-- The witness of finding F9 in the model of the code BEFORE the fix (`fixed := false`, link gate
+`child >= Draining`): a linked Send actor, one thread `cast; drain` run while `pre_start` is
+suspended; nothing intervenes, yet the start fails at the link and the accepted cast is lost. -/
+theorem unfixed_link_gate_drops_accepted_casts :
+    let c : EarlyStep.Cfg := { fixed := false, linked := true }
+    let s := (EarlyStep.run c (EarlyStep.init [[.cast, .drain]])
+      [.start, .start, .t 0, .t 0, .t 0, .t 0, .start, .start]).sh
+    EarlyStep.undisturbed c s = true ∧ s.pc = .failed .nolink ∧ s.accepted = [0] ∧ s.handled = [] := by
+  decide
+
+/-- … the same schedule in the model of the fixed code: the link succeeds; the actor's task then
+handles the cast and ends "Drained" (non-vacuity of the theorems above: marker emitted, undisturbed). -/
+example :
+    let c : EarlyStep.Cfg := { fixed := true, linked := true }
+    let s := (EarlyStep.run c (EarlyStep.init [[.cast, .drain]])
+      [.start, .start, .t 0, .t 0, .t 0, .t 0, .start, .start]).sh
+    EarlyStep.undisturbed c s = true ∧ s.markerSent = true ∧ s.pc = .markRunning ∧ s.status = 4 ∧
+    (EarlyStep.startN c (EarlyStep.measure s) s).pc = .exited .drained ∧
+    (EarlyStep.startN c (EarlyStep.measure s) s).handled = [0] := by
+  decide
+
+/-- thread-local flavour, the drain's status step between `set_status(Starting)` and the early
+link: refused before the fix, accepted after. -/
+example :
+    (EarlyStep.run { fixed := false, linked := true, tl := true } (EarlyStep.init [[.drain]])
+      [.start, .start, .t 0, .t 0, .start]).sh.pc = .failed .nolink ∧
+    (EarlyStep.run { fixed := true, linked := true, tl := true } (EarlyStep.init [[.drain]])
+      [.start, .start, .t 0, .t 0, .start]).sh.pc = .preStart := by
+  decide
+
+/-- E-SRC: the gates `Model/EarlyStep.lean` runs with `Cfg.fixed = true` are the ones in the source —
+`drain()` lifts every status except `Unstarted` that is below `Stopping` to `Draining`; `start` (Send and
+thread-local) links through `try_link_starting` → `link_starting`, whose child bound is `Stopping`
+(the public `link()`: `Draining`); `link_below` refuses `child >= bound || supervisor >= Draining`.
+Reverting fix ee38a9c breaks this obligation (besides the oracle). -/
+theorem src_start_drain_gates :
+    Extracted.drainLiftGuard = "f != (ActorStatus::Unstarted as u8) && f < (ActorStatus::Stopping as u8)" ∧
+    Extracted.drainLiftsTo = "Draining" ∧
+    Extracted.sendStartLinkCall = "try_link_starting" ∧ Extracted.localStartLinkCall = "try_link_starting" ∧
+    Extracted.tryLinkStartingCalls = "link_starting" ∧ Extracted.linkStartingChildBound = "Stopping" ∧
+    Extracted.linkChildBound = "Draining" ∧ Extracted.linkBelowGate = true := by decide
+
+/-- the status constants of the model are the discriminants in the source -/
+theorem src_status_discriminants_start :
+    (Extracted.statusDiscriminants.lookup "Unstarted", Extracted.statusDiscriminants.lookup "Starting",
+      Extracted.statusDiscriminants.lookup "Running", Extracted.statusDiscriminants.lookup "Draining",
+      Extracted.statusDiscriminants.lookup "Stopping", Extracted.statusDiscriminants.lookup "Stopped") =
+    (some EarlyStep.stUnstarted, some EarlyStep.stStarting, some EarlyStep.stRunning,
+      some EarlyStep.stDraining, some EarlyStep.stStopping, some EarlyStep.stStopped) := by
   decide
 
 end C07
@@ -341,3 +493,13 @@ end C07
 #print axioms C07.src_drain_steps
 #print axioms C07.drain_before_start_still_drains
 #print axioms C07.no_send_accepted_after_early_drain
+#print axioms C07.start_race_nothing_lost_while_alive
+#print axioms C07.start_race_drained_exit_handled_everything
+#print axioms C07.start_race_never_already_started
+#print axioms C07.start_race_only_drained_exit
+#print axioms C07.start_race_drain_completes
+#print axioms C07.start_race_drain_completes_fair
+#print axioms C07.start_race_nothing_accepted_after_close
+#print axioms C07.unfixed_link_gate_drops_accepted_casts
+#print axioms C07.src_start_drain_gates
+#print axioms C07.src_status_discriminants_start
